@@ -98,6 +98,10 @@ def iclass(t, side, depth=0):
             return ("array", str(int(m.group(2)) * int(inner[1])), inner[2])
         return ("array", m.group(2), inner)
     if "(*" in t or t.endswith(")"):
+        # function pointer: keep the class of its result (what a Fortran procedure dummy's interface declares)
+        mf = re.match(r"^(.*?)\(\s*\*[^()]*\)\s*\(.*\)$", t)
+        if mf and mf.group(1).strip():
+            return ("fptr", iclass(mf.group(1), side, depth + 1))
         return ("fptr",)
     if t.endswith("*"):
         return ("ptr", iclass(t[:-1], side, depth + 1))
@@ -161,7 +165,11 @@ def compatible(f, c):
         return True
     if f[0] == "ptr" and c[0] == "fptr" or f[0] == "fptr" and c[0] == "ptr":
         # a procedure dummy argument / type(C_FUNPTR) is interoperable with a C function pointer;
-        # -fc-prototypes prints a procedure dummy as '<result type> *name'
+        # -fc-prototypes prints a procedure dummy as '<result type> *name': where both sides name a result type
+        # (a function, not a subroutine; not the opaque C_FUNPTR) the interface's result must be the callback's
+        fp, pp = (c, f) if c[0] == "fptr" else (f, c)
+        if len(fp) > 1 and fp[1][0] not in ("void", "unknown", "fptr") and len(pp) > 1 and pp[1][0] not in ("void", "unknown"):
+            return compatible(pp[1], fp[1]) if c[0] == "fptr" else compatible(fp[1], pp[1])
         return True
     if f[0] == "unknown" or (f[0] == "ptr" and f[1][0] == "unknown"):
         return c[0] in ("struct", "ptr")        # derived type defined in another module: not describable here
@@ -571,6 +579,13 @@ def main(rec):
                 lib = libs.build("i%s%d%s" % ("x" if lang == "c++" else "c", bi // per, "f" if cfi else ""), lang, inst[bi:bi + per],
                                  ("c", "fortran"), options={"F_CFI": cfi})
                 cases.append({"lib": lib})
+    # function pointer arguments: each shape alone (one module each), so that every abstract interface is described by itself
+    for lang in ("c++", "c"):
+        k = 0
+        for it in libs.instances(lang, ("c", "fortran")):
+            if "callback" in it[0]["id"]:
+                k += 1
+                cases.append({"lib": libs.build("icb%s%d" % ("x" if lang == "c++" else "c", k), lang, [it], ("c", "fortran"))})
     # fortran_generic entries that differ in rank (every new scalar / array pattern gets a bind(C) interface of its own)
     # and, in the same entry, in the type of a by-value scalar: the extra interfaces still bind to the one C function
     from ..libgen.libs import F, P
